@@ -5,12 +5,15 @@ import (
 	"encoding/xml"
 	"fmt"
 	"io"
+	"strings"
 
+	"mellium.im/xmlstream"
 	"mellium.im/xmpp"
 	"mellium.im/xmpp/internal/wskey"
 	"mellium.im/xmpp/jid"
 	"mellium.im/xmpp/stanza"
 	"mellium.im/xmpp/stream"
+	"mellium.im/xmpp/websocket"
 )
 
 // SessionOpts describes a ready-made session (no feature negotiation runs).
@@ -20,10 +23,20 @@ type SessionOpts struct {
 	// Origin, when set, is the address the session is created with; the harness
 	// negotiator then changes the local address to Local with UpdateAddr, as
 	// resource binding does when the server assigns an address
-	Origin   jid.JID
-	Remote   jid.JID // peer address (default example.net)
-	WS       bool    // WebSocket framing
-	NoHeader bool    // do not feed/consume a stream header
+	Origin jid.JID
+	Remote jid.JID // peer address (default example.net)
+	WS     bool    // WebSocket framing
+	// Negotiated, when "initiated" or "received", establishes the session through
+	// the library's own default negotiator (xmpp.NewNegotiator) instead of a
+	// ready-made one: the peer's header and features / feature selection are fed
+	// by Header(), the only feature is a harness double that sets the ready bit,
+	// and everything the library writes while negotiating is discarded from the
+	// Conn's output afterwards.  The addresses are then learned the way real
+	// sessions learn them (a received session takes its own address from the
+	// "to" of the peer's header).  With WS the websocket package's negotiator
+	// is used.
+	Negotiated string
+	NoHeader   bool // do not feed/consume a stream header
 }
 
 // Header returns the stream header the harness feeds as the peer for opts.
@@ -32,8 +45,37 @@ func (o SessionOpts) Header() string {
 	if o.State&xmpp.S2S != 0 {
 		ns = stanza.NSServer
 	}
-	if o.WS {
+	if o.WS && o.Negotiated == "" {
 		return `<open xmlns="urn:ietf:params:xml:ns:xmpp-framing" version="1.0" id="hdr1"/>`
+	}
+	local, remote := o.Local, o.Remote
+	if local.Equal(jid.JID{}) {
+		local = jid.MustParse("test@example.net")
+	}
+	if remote.Equal(jid.JID{}) {
+		remote = jid.MustParse("example.net")
+	}
+	esc := func(v string) string {
+		var sb strings.Builder
+		_ = xml.EscapeText(&sb, []byte(v))
+		return sb.String()
+	}
+	if o.WS {
+		switch o.Negotiated {
+		case "received":
+			return `<open xmlns="` + WSNS + `" version="1.0" to="` + esc(local.String()) + `"/>` + `<rdy xmlns="` + ReadyNS + `"/>`
+		case "initiated":
+			return `<open xmlns="` + WSNS + `" version="1.0" id="hdr1" from="` + esc(remote.String()) + `" to="` + esc(local.String()) + `"/>` +
+				`<features xmlns="` + StreamNS + `"><rdy xmlns="` + ReadyNS + `"/></features>`
+		}
+	}
+	switch o.Negotiated {
+	case "received":
+		// the initiating peer: header naming us, then the selection of the double
+		return `<stream:stream xmlns="` + ns + `" xmlns:stream="` + StreamNS + `" version="1.0" to="` + esc(local.String()) + `">` + `<rdy xmlns="` + ReadyNS + `"/>`
+	case "initiated":
+		return `<stream:stream xmlns="` + ns + `" xmlns:stream="` + StreamNS + `" version="1.0" id="hdr1" from="` + esc(remote.String()) + `" to="` + esc(local.String()) + `">` +
+			`<stream:features><rdy xmlns="` + ReadyNS + `"/></stream:features>`
 	}
 	return `<stream:stream xmlns="` + ns + `" xmlns:stream="` + StreamNS + `" version="1.0" id="hdr1">`
 }
@@ -46,6 +88,69 @@ func (o SessionOpts) NS() string {
 	return stanza.NSClient
 }
 
+// ReadyNS is the namespace of the harness feature that sets the ready bit in
+// negotiated sessions.
+const ReadyNS = "urn:verif:ready"
+
+// WSNS is the WebSocket framing namespace (RFC 7395).
+const WSNS = "urn:ietf:params:xml:ns:xmpp-framing"
+
+func readyDouble() xmpp.StreamFeature {
+	return xmpp.StreamFeature{
+		Name: xml.Name{Space: ReadyNS, Local: "rdy"},
+		List: func(ctx context.Context, e xmlstream.TokenWriter, start xml.StartElement) (bool, error) {
+			if err := e.EncodeToken(start); err != nil {
+				return true, err
+			}
+			return true, e.EncodeToken(start.End())
+		},
+		Parse: func(ctx context.Context, d *xml.Decoder, start *xml.StartElement) (bool, interface{}, error) {
+			return true, nil, d.Skip()
+		},
+		Negotiate: func(ctx context.Context, s *xmpp.Session, data interface{}) (xmpp.SessionState, io.ReadWriter, error) {
+			if s.State()&xmpp.Received != 0 {
+				// consume the peer's selection
+				r := s.TokenReader()
+				d := xml.NewTokenDecoder(r)
+				tok, err := d.Token()
+				if err == nil {
+					if _, ok := tok.(xml.StartElement); ok {
+						err = d.Skip()
+					}
+				}
+				r.Close()
+				return xmpp.Ready, nil, err
+			}
+			_, err := fmt.Fprint(s.Conn(), `<rdy xmlns="`+ReadyNS+`"/>`)
+			return xmpp.Ready, nil, err
+		},
+	}
+}
+
+func negotiatedSession(rw io.ReadWriter, o SessionOpts) (*xmpp.Session, error) {
+	cfg := func(*xmpp.Session, *xmpp.StreamConfig) xmpp.StreamConfig {
+		return xmpp.StreamConfig{Features: []xmpp.StreamFeature{readyDouble()}}
+	}
+	neg := xmpp.NewNegotiator(cfg)
+	if o.WS {
+		neg = websocket.Negotiator(cfg)
+	}
+	var s *xmpp.Session
+	var err error
+	if o.Negotiated == "received" {
+		s, err = xmpp.ReceiveSession(context.Background(), rw, o.State, neg)
+	} else {
+		s, err = xmpp.NewSession(context.Background(), o.Remote, o.Local, rw, o.State, neg)
+	}
+	if err != nil {
+		return nil, fmt.Errorf("harness: negotiating (%s): %w", o.Negotiated, err)
+	}
+	if c, ok := rw.(*Conn); ok {
+		c.DiscardOutput()
+	}
+	return s, nil
+}
+
 // ReadySession creates a session over rw whose negotiator only consumes the
 // peer's stream header (which the caller must have fed already unless
 // NoHeader) and marks the session ready.  Nothing is written to rw.
@@ -55,6 +160,9 @@ func ReadySession(rw io.ReadWriter, o SessionOpts) (*xmpp.Session, error) {
 	}
 	if o.Remote.Equal(jid.JID{}) {
 		o.Remote = jid.MustParse("example.net")
+	}
+	if o.Negotiated != "" {
+		return negotiatedSession(rw, o)
 	}
 	ctx := context.Background()
 	if o.WS {
